@@ -7,3 +7,5 @@ import Ypv.Props.C12
 #print axioms Ypv.C12.inverted_is_complement
 #print axioms Ypv.C12.positions_partition
 #print axioms Ypv.C12.inverted_list_site
+#print axioms Ypv.C12.attr_plain_is_filter
+#print axioms Ypv.C12.attr_inverted_is_complement
